@@ -88,7 +88,10 @@ func VerifH_C08_race() {
 
 // writeKinds: like write, with parameter changes as a third kind.
 func (w *vWriter) writeKinds() {
-	kind := verifChoice("vkind", 3)
+	kind := 0
+	if verifParam("ALLIDR", 0) == 0 {
+		kind = verifChoice("vkind", 3)
+	}
 	if w.k > 0 {
 		w.dts += verifRangeI64("vdelta", 1, 1<<18)
 	}
